@@ -337,3 +337,49 @@ def find_item(items, kind, name=None, header=None):
         if header is not None and it.header != norm(header): continue
         return it
     raise Unsupported("lost anchor: %s %s" % (kind, name or header))
+
+
+def impl_parts(header):
+    """`impl<G> Trait for Ty where W` -> dict(generics, trait, trait_head, self_ty, where)   (trait None for inherent)"""
+    c = Code(header)
+    k = 0
+    while c.t(k) != "impl":
+        k += 1
+    j = k + 1
+    g = ""
+    if c.t(j) == "<":
+        depth, m = 0, j
+        while True:
+            if c.t(m) == "<": depth += 1
+            elif c.t(m) == ">":
+                depth -= 1
+                if depth == 0: break
+            m += 1
+        g = c.slice(j + 1, m).strip()
+        j = m + 1
+    # find top-level `for` (not inside <...>) and `where`
+    depth, f, wv = 0, None, None
+    m = j
+    while m < len(c):
+        x = c.t(m)
+        if x == "<": depth += 1
+        elif x == ">": depth -= 1
+        elif x in ("(", "["): m = c.close(m)
+        elif depth == 0 and x == "for" and f is None and c.t(m + 1) != "<": f = m
+        elif depth == 0 and x == "where": wv = m; break
+        m += 1
+    end = wv if wv is not None else len(c)
+    if f is None:
+        tr, st = None, c.slice(j, end).strip()
+    else:
+        tr, st = c.slice(j, f).strip(), c.slice(f + 1, end).strip()
+    wh = header[c.pos(wv + 1):].strip().rstrip(",") if wv is not None else ""
+    head = None
+    if tr:
+        tc = Code(tr)
+        # last path segment ident before generics
+        i = 0
+        head = tc.t(0)
+        while tc.t(i + 1) == "::":
+            i += 2; head = tc.t(i)
+    return {"generics": g, "trait": tr, "trait_head": head, "self_ty": norm(st), "where": wh}
